@@ -129,7 +129,7 @@ fn main() {
     }
     // shrink what can be shrunk
     report.failures.sort_by_key(|f| if f.kind == "oracle" { 0 } else { 1 });
-    let shrunk: Vec<core::Failure> = report.failures.iter().take(5).map(|f| shrink(f, &driver)).collect();
+    let shrunk: Vec<core::Failure> = report.failures.iter().take(40).enumerate().map(|(i, f)| if i < 6 { shrink(f, &driver) } else { f.clone() }).collect();
     report.failures = shrunk;
     let json = report_json(&slice, seed, &tier, &report);
     match out {
